@@ -49,7 +49,7 @@ async def scenario(loop, plan, out):
     cap = plan["cap"]
     mfg = {"burnable": netsim.FF8, "burnt": bytes.fromhex("a1a2a3a4a5a6a7a8"), "absent": b""}[cap["mfg"]]
     sim = netsim.NetSim(loop, v, nv3_eui64=cap["nv3"], mfg_eui64=mfg, have_token_cmds=cap["token_cmds"],
-                        key_table_size=cap.get("key_table", 12))
+                        key_table_size=cap.get("key_table", 12), fw_sizes=(2, 2) if cap.get("fw_small") else None)
     if cap.get("nv3_custom") and sim.nv3 is not None:
         # the NCP already carries a custom EUI64 from an earlier restore
         sim.nv3[0x0000E12A] = bytes.fromhex(cap["nv3_custom"])
@@ -68,6 +68,11 @@ async def scenario(loop, plan, out):
         for k in range(prior["nchildren"]):
             sim.children[k] = (bytes([0xD0 + k] * 8), 0x5000 + k, 4)
         sim.stack_up = prior["up"]
+        if not prior.get("joined", True):
+            # ... or it has left that network (an interrupted restore): no network, no current keys, but the link-key
+            # table and the counters are still in non-volatile memory
+            sim.network, sim.current_sec, sim.stack_up = None, None, False
+            sim.children = {}  # (leaving erased the child table)
     ezsp = e.EZSP({"path": "/dev/null", "baudrate": 115200, "flow_control": None})
     sim.attach(ezsp)
     ezsp._switch_protocol_version(v)
@@ -75,6 +80,9 @@ async def scenario(loop, plan, out):
     app = zshim.make_app()
     app._ezsp = ezsp
     out["sim"] = sim
+    if cap.get("fw_small"):
+        # the firmware's own table sizes are small; the application has configured the NCP at connect time, as it does
+        await ezsp.write_config(app.config["ezsp_config"])
     ni = plan["net"]
     keys = [zs.Key(key=zt.KeyData.deserialize(bytes.fromhex(k["key"]))[0], partner_ieee=zt.EUI64.deserialize(bytes.fromhex(k["partner"]))[0])
             for k in ni["link_keys"]]
@@ -219,6 +227,8 @@ def check(plan) -> Result:
         r.cls("ncp-already-had-custom-eui64")
     if plan["cap"].get("prior"):
         r.cls("ncp-held-an-earlier-network")
+    if plan["cap"].get("fw_small"):
+        r.cls("firmware-table-sizes-small")
     if ni["link_keys"]:
         r.cls("link-keys")
     if ni["children"]:
@@ -241,7 +251,8 @@ eui8 = st.binary(min_size=8, max_size=8).filter(lambda b: b not in (b"\xff" * 8,
 @st.composite
 def plans(draw, versions=tuple(range(4, 15))):
     v = draw(st.sampled_from(list(versions)))
-    ktab = draw(st.sampled_from([4, 12]))
+    fw_small = draw(st.integers(0, 3)) == 0
+    ktab = 4 if fw_small else draw(st.sampled_from([4, 12]))
     nkeys = draw(st.integers(0, min(ktab, 6)))
     partners = draw(st.lists(eui8, min_size=nkeys, max_size=nkeys, unique=True))
     nch = draw(st.integers(0, 5))
@@ -263,8 +274,10 @@ def plans(draw, versions=tuple(range(4, 15))):
     }
     cap = {"nv3": draw(st.booleans()), "mfg": draw(st.sampled_from(["burnable", "burnt", "absent"])), "token_cmds": draw(st.booleans()),
            "key_table": ktab, "nv3_custom": draw(st.sampled_from([None, None, "c1c2c3c4c5c6c7c8", "d1d2d3d4d5d6d7d8"]))}
+    if fw_small:
+        cap["fw_small"] = True
     if draw(st.booleans()):
-        cap["prior"] = {"fc": draw(st.sampled_from([0x12345, 1, 2**32 - 2])), "aps_fc": draw(st.sampled_from([0, 0x777])),
+        cap["prior"] = {"joined": draw(st.sampled_from([True, True, False])), "fc": draw(st.sampled_from([0x12345, 1, 2**32 - 2])), "aps_fc": draw(st.sampled_from([0, 0x777])),
                         "nkeys": draw(st.integers(0, 3)), "nchildren": draw(st.integers(0, 3)), "up": draw(st.booleans())}
     plan = {"v": v, "net": net, "cap": cap, "node_ieee": draw(st.sampled_from(["same", "other", "other", "unknown"])),
             "allow_burn": draw(st.booleans())}
